@@ -60,7 +60,7 @@ fn clean(bases: &[u8]) -> bool {
 // ------------------------------------------------------------------------------------------------
 // real code wrappers
 
-type Reg = (Vec<u8>, Option<u64>, Option<u64>);
+pub(super) type Reg = (Vec<u8>, Option<u64>, Option<u64>);
 
 fn region(r: &Reg) -> Region {
     let p = |x: u64| Position::try_from(x as usize).unwrap();
@@ -131,7 +131,7 @@ const DNA: &[u8] = b"ACGTN";
 const IUPAC: &[u8] = b"ACGTNacgtnRYKMSWBDHVryk*-";
 
 #[derive(Default, Clone, Debug)]
-struct Meta {
+pub(super) struct Meta {
     crlf: bool,
     perturbed: Option<&'static str>,
     weird: bool,
@@ -169,7 +169,7 @@ fn gen_lb(rng: &mut Rng) -> usize {
 /// variations (CRLF, short last line, blank trailing line, no final newline, descriptions) and, in
 /// a minority of files, one defect (ragged line, blank line inside, wrong terminator, empty
 /// sequence, missing '>' …) or bytes outside the base alphabet.
-fn gen_file(rng: &mut Rng) -> (Vec<u8>, Meta) {
+pub(super) fn gen_file(rng: &mut Rng) -> (Vec<u8>, Meta) {
     let mut m = Meta::default();
     let nrec = *rng.pick(&[1usize, 1, 2, 2, 2, 3, 3, 4, 5, 8]);
     m.crlf = rng.chance(1, 3);
@@ -543,7 +543,7 @@ fn fai_case(ctx: &mut Ctx, file: &[u8], regs: &[(Reg, &'static str)], exhaustive
     }
 }
 
-fn fai_regions(rng: &mut Rng, file: &[u8]) -> Vec<(Reg, &'static str)> {
+pub(super) fn fai_regions(rng: &mut Rng, file: &[u8]) -> Vec<(Reg, &'static str)> {
     let naive = naive_parse(file);
     let mut regs = vec![];
     // geometry for region placement: first line of each record, by a plain scan
@@ -714,7 +714,7 @@ fn fasta_roundtrip(ctx: &mut Ctx, sub: u64, emit_corr: bool) {
 // ------------------------------------------------------------------------------------------------
 // FASTQ
 
-type FqRec = (Vec<u8>, Vec<u8>, Vec<u8>, Vec<u8>);
+pub(super) type FqRec = (Vec<u8>, Vec<u8>, Vec<u8>, Vec<u8>);
 
 fn fmt_fq_recs(rs: &[FqRec]) -> String {
     if rs.is_empty() {
@@ -735,7 +735,7 @@ impl Write for SharedBuf {
     }
 }
 
-fn write_fastq(rs: &[FqRec], sep: u8) -> io::Result<Vec<u8>> {
+pub(super) fn write_fastq(rs: &[FqRec], sep: u8) -> io::Result<Vec<u8>> {
     let mk = |r: &FqRec| fastq::Record::new(fastq::record::Definition::new(r.0.clone(), r.1.clone()), r.2.clone(), r.3.clone());
     if sep == b' ' {
         let mut w = fastq::io::Writer::new(Vec::new());
@@ -791,7 +791,7 @@ fn fqindex_answer(file: &[u8]) -> (String, Option<Vec<fastq::fai::Record>>) {
 
 const QUAL_ALPHA: &[u8] = b"!\"#$%&'()*+,-./0123456789:;<=>?@ABCDEFGHIJ@@++";
 
-fn gen_fq_recs(rng: &mut Rng) -> Vec<FqRec> {
+pub(super) fn gen_fq_recs(rng: &mut Rng) -> Vec<FqRec> {
     let n = 1 + rng.below(5) as usize;
     (0..n)
         .map(|k| {
@@ -958,6 +958,7 @@ fn corpus_case(ctx: &mut Ctx, k: usize, emit_corr: bool) {
 
 pub fn run(ctx: &mut Ctx) {
     if let Some(case) = ctx.replay_only.clone() {
+        if super::c11_more::replay(ctx, &case) { return; }
         let sub: u64 = case.get(1).and_then(|s| s.parse().ok()).unwrap_or(0);
         match case.first().map(|s| s.as_str()) {
             Some("corpus") if (sub as usize) < CORPUS.len() => corpus_case(ctx, sub as usize, false),
@@ -998,5 +999,6 @@ pub fn run(ctx: &mut Ctx) {
         let sub = ctx.seed.wrapping_mul(11_000_081).wrapping_add(it);
         fastq_case(ctx, sub, true);
     }
+    super::c11_more::run(ctx);
     ctx.sample(|| "c11 fai 3e7371300a414347540a41430a3e713120646573630a54545454470a 737130:2:5,737130:9:20,7131:-:-".into());
 }
